@@ -40,6 +40,12 @@ CHECKS = {
         note="3 input values (one within the tolerance of another) + defaults, 3 alphabets rotated by VERIF_SEED; canonical state = cache entries + local data + Jacobian keys + differentiated I/O + the caller's reused arrays + run counters; large topology-optimization disciplines are limited to depth 1/2.",
         technique="explicit-state BFS over operation histories of real disciplines and caches, ground-truth / uncached-twin oracle in every state",
     ),
+    "C06": dict(
+        engine="E2-product", category="exploration",
+        text="Deviation-bounded exhaustive enumeration over generated contractive coupled systems - every strongly connected labelled digraph on 2-3 disciplines x every self-loop subset for the plain solvers, every digraph with a coupling for MDAJacobi, all 16 / 512 digraphs (several SCCs, self-coupled, weakly coupled, acyclic) for MDAChain; sizes 1-2; linear, 0.3 sin, 0.2 tanh and small-gain quadratic maps with an asserted contraction constant q <= 0.5 - x MDA class (Jacobi, Gauss-Seidel, Newton-Raphson, quasi-Newton with 9 SciPy methods, GS-Newton, Sequential, MDAChain x 5 inner MDAs) x acceleration (6 methods) x over-relaxation {0.8, 1, 1.2} x 6 residual scalings x warm start x every listing permutation x serial / threads / processes x 3 input points x executed once and twice; oracles derived from q: re-executing every discipline on the returned data reproduces it, agreement with numpy.linalg.solve (or the harness's Banach iteration), all configurations agree through the common reference, and a run that does not report convergence where theory gives it is a violation.",
+        note="quick: <= 1 deviation on n = 2, defaults on every labelled n = 3 graph, all permutations on class representatives, plus the acceleration x relaxation product; thorough: <= 2 deviations (n = 3 on isomorphism-class representatives); 4 value alphabets by VERIF_SEED; quasi-Newton runs are held to SciPy's documented stopping rules; reduced-budget phases are counted, nothing is claimed about their data; Aitken + relaxation is a registered known finding.",
+        technique="deviation-bounded exhaustive enumeration of coupling graphs x MDA classes x setting vectors, closed-form / contraction-derived oracle",
+    ),
     "C07": dict(
         engine="E2-product", category="exploration",
         text="Full product over 6 coupled systems (fully coupled, weakly coupled downstream / upstream, self-coupled, state equation solved inside a discipline or left to the MDA; unequal sizes, names sorting differently from production order) x mode {auto, direct, adjoint} x matrix type {sparse, sparse + LU, linear operator} x the 8 linear solvers accepting a non-symmetric system x every non-empty subset of inputs x every non-empty subset of outputs (couplings / states among them) x 2 points x 5 MDA kinds x Jacobian representation (dense, csr, operator) x partial or full fill, plus every ordered pair of requests on the SAME MDA object (discipline API and assembly API); oracle: dF/dx - dF/dy (dR/dy)^-1 dR/dx assembled densely by the harness and self-checked against a monolithic solve, with a tolerance derived from the solver tolerance and the conditioning.",
